@@ -89,8 +89,8 @@ CLAIMED = {
     "C15": ("cachesched", "exhaustive enumeration of all block histories (no de-duplication) x all memory limits vs the model's birth/death table",
             "Every block history with at most Nmax leaves ever added and at most D blocks is summarised to a fresh CachingScheduleTracker (reference proof targets, addition counts) and "
             "GenerateCachingSchedule is evaluated for every memory limit from 1 to leaves-ever-added+1; each scheduled position must be the insertion slot of a leaf added in that block and deleted later, "
-            "ascending without repeats, never more than the limit alive at once, complete at unbounded memory, no panic. Six signatures of two genuine defects (emptied tree, overwritten empty root) are "
-            "recorded as known findings KF-2..KF-7, attributed by signature (incl. a model-level trigger predicate) and exact case set; any other violation is reported.", "6 C15"),
+            "ascending without repeats, never more than the limit alive at once, complete at unbounded memory, no panic. The defect this check found (six signatures, former known findings KF-2..KF-7) has been repaired; "
+            "wider/shallower and structured aligned-block passes reach 8-32 leaves.", "6 C15"),
     "C12": ("sched", "stateless model checking: preemption-bounded DFS over schedules of the real MapPollard under a cooperative scheduler; separate free-running -race pass",
             "300+ scenarios (prepared full/partial forests x writer programs Modify / Modify+Undo / Verify(remember) / VerifyPartialProof(remember) / Ingest / Prune / Read x one or two reader threads with one or "
             "two queries from the eleven query kinds) are executed under a cooperative scheduler that owns the RWMutex (sync shim substituted at build time) and every Nodes/CachedLeaves access; every schedule with "
@@ -156,7 +156,7 @@ def main():
         ],
         "checks": checks,
         "not_applicable": na,
-        "notes": "All checks are bounded exhaustive explorations (model checking of the implementation). `./check.sh <id> <tier>` rebuilds from /repo's working tree. Known findings: /verif/KNOWN_FINDINGS.txt.",
+        "notes": "All checks are bounded exhaustive explorations (model checking of the implementation). `./check.sh <id> <tier>` rebuilds from /repo's working tree. Known findings and repaired defects: /verif/KNOWN_FINDINGS.txt (currently no open finding).",
     }
     json.dump(m, open('/verif/MANIFEST.json', 'w'), indent=1)
     print("wrote MANIFEST.json:", len(checks), "checks,", len(na), "not claimed")
